@@ -53,7 +53,8 @@ HOSTILE_TEXT = ('1e3', 'TRUE', 'false', 'null', '~', 'a: b', '- x', '{a: 1}', '[
                 ' lead', 'trail ', 'multi\nline', 'tab\tbed', 'ünïcødé ✓', "it's", '"quoted"',
                 '0123', '1_000', '2021-01-01', '1:30', '.5', '0x1F', '1e22', '#', '# c', '@x',
                 '%y', '!tag', '&anchor', '*alias', '|', '>', '? q', 'key: [', "'", '""', '\\n',
-                'x' * 130, 'a,b', '-0.0', 'on', 'off', '12e', 'S!A1', '3 ')
+                'x' * 130, 'a,b', '-0.0', 'on', 'off', '12e', 'S!A1', '3 ', 'smile \U0001F600 x',
+                '\u00e9\u4e2d\u6587', 'back\\slash', 'q"uote\\"')
 # not in the pool: 'NaN', 'inf', '.inf' - pycel's number coercion turns such text into float
 # nan/inf (operator semantics, C10, not claimed) and the original model itself then raises
 HOSTILE_NUM = (1e-7, 1e22, -0.0, 0.1 + 0.2, 123456789012345678, 1e-300, 2 ** 53 + 1.0, -1e-5,
@@ -124,8 +125,11 @@ def gen_case(rnd, tier, index):
     consts = [a for a in dag.constants() if a not in spec.get('pinned', ())]
     cur = {}
 
+    with_deps = [a for a in consts if dag.deps.get(a)]
+
     def draw_set():
-        a = rnd.choice(consts)
+        a = rnd.choice(with_deps) if with_deps and rnd.random() < 0.7 else rnd.choice(consts)
+        recent.append(a)
         if workload == 'cycle':
             v = round(rnd.uniform(-5, 5), 3)
         elif rnd.random() < 0.5:
@@ -135,7 +139,14 @@ def gen_case(rnd, tier, index):
         cur[a] = v
         return {'op': 'set', 'a': a, 'v': v}
 
+    recent = []
+
     def draw_eval():
+        # prefer what the most recent writes can have changed
+        if recent and rnd.random() < 0.6:
+            deps = sorted(dag.descendants(recent[-1]))
+            if deps:
+                return {'op': 'eval', 'a': rnd.choice(deps), 'form': 'cell'}
         return {'op': 'eval', 'a': rnd.choice(dag.order), 'form': 'cell'}
 
     ops = []
